@@ -458,17 +458,19 @@ class Engine(ValueOps, ExprOps, CallOps, StmtOps):
                     self.apply_refine(rf)
                     return self.spec_body(list(s.orelse) + rest)
                 env0 = dict(st.env)
+                self.guards.append(c)          # (syntactic: lets narrowing drop the kinds the branch condition excludes)
                 try:
                     self.apply_refine(rt)
                     a = self.spec_body(list(s.body) + rest)
                 finally:
-                    pass
+                    self.guards.pop()
                 st.env = dict(env0)
+                self.guards.append(mk_not(c))
                 try:
                     self.apply_refine(rf)
                     b = self.spec_body(list(s.orelse) + rest)
                 finally:
-                    pass
+                    self.guards.pop()
                 st.env = env0
                 return self.merge_ite(c, a, b)
             raise Unsupported('statement %s in a spec function' % type(s).__name__, s)
@@ -499,19 +501,23 @@ class Engine(ValueOps, ExprOps, CallOps, StmtOps):
             if c == FALSE:
                 return self.ev(node.orelse)
             saved_env = dict(self.st.env)
+            self.guards.append(c)
             try:
                 self.apply_refine(rt)          # isinstance / None tests narrow the names they mention in that branch
                 a = self.ev(node.body)
                 if a.kind == 'val':
                     a = self.narrow_if_determined(a)
             finally:
+                self.guards.pop()
                 self.st.env = dict(saved_env)
+            self.guards.append(mk_not(c))
             try:
                 self.apply_refine(rf)
                 b = self.ev(node.orelse)
                 if b.kind == 'val':
                     b = self.narrow_if_determined(b)
             finally:
+                self.guards.pop()
                 self.st.env = saved_env
             return self.merge_ite(c, a, b)
         return ExprOps.ev_IfExp(self, node)
@@ -967,6 +973,12 @@ class Engine(ValueOps, ExprOps, CallOps, StmtOps):
             st.oblige(self.py_eq_spec(result, expected), 'result == %s' % con.result_is, fi.node.lineno, kind='ensures')
         for e in con.ensures:
             st.oblige(self.spec_eval_bool(e), 'ensures %s' % e, fi.node.lineno, kind='ensures')
+        if not con.frame:
+            self.wf_used.add('%s: frame NOT checked (the contract says frame=False): that it changes nothing outside its modifies is assumed'
+                             % con.key)
+        if any(w is True for w in con.raises.values()):
+            self.wf_used.add('%s: %s may escape at any point (partial correctness with respect to these exceptions: the postcondition '
+                             'is about normal returns)' % (con.key, ', '.join(k for k, w in con.raises.items() if w is True)))
         if con.frame:
             self.check_frame(fi, con, pre)
 
